@@ -1073,7 +1073,7 @@ def oracle_profiler(rng, n, stats, big_every=20):
     v = []
     for k in range(n):
         df = S.gen_profile_frame(rng, stats, big=(k % big_every == big_every - 1))
-        attrs = None if rng.random() < 0.5 else rng.sample(list(df.columns), rng.randint(1, len(df.columns)))
+        attrs = None if rng.random() < 0.5 else rng.sample(list(df.columns), rng.randint(0 if rng.random() < 0.15 else 1, len(df.columns)))
         use = list(df.columns) if attrs is None else attrs
         case = {'entry': 'profiler', 'frame': frame_to_case(df) if len(df) < 100 else {'rows': len(df), 'seed_case': k}, 'attrs': attrs}
         try:
